@@ -4,6 +4,139 @@
 
 package jsonrpc2
 
+//@ guarded_by Remote.pending mu
+//@ guarded_by Server.registry mu
+
 //@ interface jsonrpc2.Service.Call(ctx, result, method, params) (err)
-//@ ensures [effect] effects == old(effects) + 1
+//@ defines [effect] effects == old(effects) + 1
 //@ modifies effects
+
+// invoked: how many registered methods have been run (ghost); lastInvoked: which one
+//@ ghost var invoked int
+
+//@ func (*Method).Call
+//@ property C16
+//@ trusted reflection (reflect.Value.Call); cross-checked by the existing TestMethodArgs/TestServer
+//@ defines [counts] invoked == old(invoked) + 1
+//@ modifies invoked
+
+//@ func parsePositionalArguments
+//@ property C15 C16
+//@ safety on
+//@ ensures [arity] err == nil ==> len(result) == len(types) || (len(rawArgs) == 0 && len(result) == 0) || len(result) == 0
+//@ ensures [error-kind] err != nil ==> result == nil
+//@ modifies nothing
+//@ loop 0 invariant [count] len(args) == i && i >= 0 && i <= len(types)
+//@ loop 1 invariant [count] len(args) == i && i <= len(types)
+
+//@ func (*Server).Handle
+//@ property C15 C16
+//@ safety on
+//@ requires req != nil && !held(s.mu) && len(nullResult) > 0 && nullResult != nil
+//@ ensures [well-formed-reply] result != nil && result.ID == req.ID && result.Response != nil && (result.Response.Error != nil || len(result.Response.Result) > 0)
+//@ ensures [misformed]      req.Request == nil ==> result.Response.Error != nil && result.Response.Error.Code == ErrCodeInvalidRequest && invoked == old(invoked)
+//@ ensures [unknown-method] req.Request != nil && !old(has(s.registry, req.Request.Method)) ==>
+//@                            result.Response.Error != nil && result.Response.Error.Code == ErrCodeMethodNotFound && invoked == old(invoked)
+//@ ensures [runs-registered-only] invoked != old(invoked) ==> req.Request != nil && old(has(s.registry, req.Request.Method)) && invoked == old(invoked) + 1
+//@ ensures [invalid-params-not-run] result.Response.Error != nil && result.Response.Error.Code == ErrCodeInvalidParams ==> invoked == old(invoked)
+//@ ensures [unlocked] !held(s.mu)
+//@ callreq Method).Call [only-after-parsing] {C16} : err == nil
+
+//@ func (*Response).UnmarshalResult
+//@ property C15
+//@ safety on
+//@ requires resp != nil
+//@ modifies nothing
+
+//@ func (*Client).Request
+//@ property C14 C15
+//@ safety on
+//@ ensures [shape] err == nil ==> result != nil && result.Request != nil && result.Request.Method == method && result.Response == nil && len(result.ID) > 0
+
+// ---- pending replies (C14): a reply is delivered on the channel stored under its own id; entries that a caller
+// is waiting on are never discarded or replaced
+
+//@ func pendingOldest
+//@ property C14
+//@ requires pending != nil
+//@ ensures [only-unclaimed] forall p int :: off(result) <= p && p < off(result) + len(result) ==> has(pending, elems(result)[p].key) && !pending[elems(result)[p].key].waiting
+//@ modifies nothing
+//@ loop 0 invariant [only-unclaimed] forall p int :: off(queue) <= p && p < off(queue) + len(queue) ==> has(pending, elems(queue)[p].key) && !pending[elems(queue)[p].key].waiting
+
+//@ func (*Remote).cleanPending
+//@ property C14 C10
+//@ requires held(r.mu) && r.pending != nil
+//@ ensures [keeps-claimed] forall k string :: old(has(r.pending, k)) && (old(r.pending[k].waiting) || k == except) ==> has(r.pending, k)
+//@ ensures [only-deletes]  forall k string :: has(r.pending, k) ==> old(has(r.pending, k)) && r.pending[k] == old(r.pending[k])
+//@ ensures [locked] held(r.mu)
+//@ modifies r.pending
+//@ loop 0 invariant [keeps-claimed] forall k string :: old(has(r.pending, k)) && (old(r.pending[k].waiting) || k == except) ==> has(r.pending, k)
+//@ loop 0 invariant [only-deletes]  forall k string :: has(r.pending, k) ==> old(has(r.pending, k)) && r.pending[k] == old(r.pending[k])
+//@ loop 0 invariant [locked] held(r.mu) && r.pending != nil
+
+//@ func (*Remote).pendingChan
+//@ property C10 C14
+//@ requires !held(r.mu)
+//@ ensures [own-key]  has(r.pending, key) && result == r.pending[key].msgChan && (old(has(r.pending, key)) ==> result == old(r.pending[key].msgChan))
+//@                     && (waiting ==> r.pending[key].waiting)
+//@ ensures [waiters-untouched] forall k string :: k != key && old(has(r.pending, k)) && old(r.pending[k].waiting) ==> has(r.pending, k) && r.pending[k] == old(r.pending[k])
+//@ ensures [nothing-invented]  forall k string :: k != key && has(r.pending, k) ==> old(has(r.pending, k)) && r.pending[k] == old(r.pending[k])
+//@ ensures [unlocked] !held(r.mu)
+//@ modifies r.pending, fieldof(r.pending)
+
+//@ func (*Remote).getPendingChan
+//@ property C14
+//@ inline
+
+// ---- codec and handler interfaces as seen by Remote ----------------------------------------
+//@ interface jsonrpc2.Codec.ReadMessage() (result, err)
+//@ ensures [message] err == nil ==> result != nil
+//@ modifies nothing
+
+//@ interface jsonrpc2.Codec.WriteMessage(msg) (err)
+//@ modifies nothing
+
+//@ interface jsonrpc2.Requester.Request(method, params) (result, err)
+//@ ensures [message] err == nil ==> result != nil
+//@ modifies nothing
+
+//@ interface jsonrpc2.Handler.Handle(ctx, request) (response)
+//@ ensures [reply] response != nil
+//@ modifies nothing
+
+//@ func (*Remote).receive
+//@ property C14 C15
+//@ safety on
+//@ requires r != nil && !held(r.mu)
+//@ ensures [result] err == nil ==> result != nil
+//@ ensures [unlocked] !held(r.mu)
+//@ ensures [forgets-only-its-own-entry] forall k string :: k != string(ID) && old(has(r.pending, k)) && old(r.pending[k].waiting) ==> has(r.pending, k) && r.pending[k] == old(r.pending[k])
+//@ callreq pendingChan [waits-on-its-own-id] : arg0 == string(ID) && arg1
+
+//@ func (*Remote).Call
+//@ property C14 C15
+//@ safety on
+//@ requires r != nil && !held(r.mu)
+//@ ensures [unlocked] !held(r.mu)
+//@ callreq receive [waits-for-the-id-it-sent] : arg1 == req.ID
+//@ callreq WriteMessage [sends-the-request-it-built] : arg0 == req
+
+//@ func (*Remote).handleRequest
+//@ property C14 C15
+//@ safety on
+//@ requires r != nil && msg != nil
+//@ callreq Handle [handler-context-carries-this-connection] : ival(ctxget(arg0, ctxService)) == r && typeis(ctxget(arg0, ctxService), *Remote)
+
+//@ func (*Local).Call
+//@ property C14 C15
+//@ safety on
+//@ requires loc != nil && !held(loc.Server.mu) && len(nullResult) > 0 && nullResult != nil
+//@ callreq Handle [handler-context-carries-this-service] : ival(ctxget(arg0, ctxService)) == loc && typeis(ctxget(arg0, ctxService), *Local)
+
+//@ func (*Remote).Serve
+//@ property C14 C15
+//@ safety on
+//@ requires r != nil && !held(r.mu)
+//@ ensures [ends-only-on-read-error] err != nil
+//@ callreq getPendingChan [reply-delivered-under-its-own-id] : arg0 == string(msg.ID) && len(msg.ID) > 0 && msg.Request == nil
+//@ loop 0 invariant [lock] !held(r.mu)
